@@ -164,14 +164,46 @@ def decode_path(ctx, repo, cname, fname, reset_required):
                f"{fi.qual}: acknowledgement is not addressed with parms=<sender of the STATP>", loc(fi, S.ast))
 
 
+def apply_model(ctx, repo, qual, must_clear):
+    """the apply callback by interpretation: a handler carrying three changes (two of them for the same position) is
+    handed to the callback of a model connection whose structure records installs: every change is installed once, in
+    arrival order, into the connection's own structure; where the handler accumulates (blocking stack) its list is empty
+    afterwards, so nothing is applied again with the next message"""
+    from ..absint import Interp, Native, Obj, Opaque, PyRaise, Undecided
+    fi = repo.func(qual)
+    changes = [(10, b"A"), (20, b"BC"), (10, b"D")]
+    installs = []
+    it = Interp(repo, max_depth=8)
+    struct = Obj(None, {INSTALL: Native(lambda a, k: installs.append((a[0], bytes(a[1]) if isinstance(a[1], (bytes, bytearray)) else a[1])), INSTALL)}, name="struct")
+    me = Obj(fi.cls, {"struct": struct, "_struct": struct}, name="connection")
+    h = Obj(None, {"changes": list(changes)}, name="partial-update-handler")
+    n_extra = len(fi.node.args.args) - 2
+    try:
+        it.call(fi, me, [h] + [Opaque(f"arg{i}") for i in range(max(n_extra, 0))])
+        raised = None
+    except PyRaise as e:
+        raised = e.what
+    except Undecided as e:
+        raise AnalysisError(f"{qual} on the model connection: {e}")
+    ctx.ob("R3", f"{qual}::applies-each-change-once-in-order", raised is None and installs == changes,
+           f"{qual} given a message with the changes {changes} {'raises ' + raised if raised else 'installs ' + str(installs)}: every change must be installed once, in arrival order (the later write to position 10 wins)",
+           fi.loc, sample={"rule": "R3", "function": qual, "installed": [list(map(str, x)) for x in installs]})
+    if must_clear:
+        left = h.attrs.get("changes")
+        ctx.ob("R2", f"{qual}::handler-list-empty-afterwards", raised is None and isinstance(left, list) and not left,
+               f"{qual}: after applying, the handler's change list is {left!r}: the blocking handler accumulates, so the same changes are applied again with the next message", fi.loc)
+
+
 def apply_path(ctx, repo, qual, must_clear):
     fi = repo.func(qual)
+    apply_model(ctx, repo, qual, must_clear)
     g = cfg_of(fi)
     hp = fi.node.args.args[1].arg
     inst = calls_named(g, INSTALL)
-    ctx.ob("R3", f"{qual}::one-install-site", len(inst) == 1, f"{fi.qual}: {len(inst)} install sites", fi.loc)
     if len(inst) != 1:
+        ctx.note(f"{fi.qual}: {len(inst)} `{INSTALL}` call sites in the function itself (a bound method, a helper) - the apply path is decided by the interpreted scenario only")
         return
+    ctx.ob("R3", f"{qual}::one-install-site", True, "")
     I, ic = inst[0]
     loop = g.loop_of(I)
     ok = loop is not None and loop.kind == "for" and ast.unparse(loop.ast.iter) == f"{hp}.changes"
